@@ -18,7 +18,9 @@ inductive Kind where
       attributes `qnoise_factor`, `use_ste`, `use_variables` (plain, settable), `built` -/
   | std
   /-- quantized_linear: `qnoise_factor`, `built`, no `use_ste`; `use_variables` is a read-only
-      property, so `quantizer.use_variables = True` raises AttributeError -/
+      property, so `quantizer.use_variables = True` raises AttributeError — unless the property
+      already returns `True` (constructed with `use_variables=True`): the trackable `__setattr__`
+      then accepts the assignment as a no-op [probed] -/
   | linear
   /-- anything without a `qnoise_factor` attribute (binary, ternary, …, `None`) -/
   | noKnob
@@ -115,7 +117,11 @@ def setOne (c : Cfg) (rd : Rnd) (q : QObj) : Option QObj :=
     let st2 := if st1.built && !st1.store.isVar then st1.build rd true else st1
     -- self.set_qnoise_factor(quantizer, qnoise_factor=0.0)
     some { q with useSte := c.useSte, st := st2.update rd 0 }
-  | .linear => none
+  | .linear =>
+    if q.st.useVars then
+      let st2 := if q.st.built && !q.st.store.isVar then q.st.build rd true else q.st
+      some { q with st := st2.update rd 0 }
+    else none
   | .noKnob => none
 
 /-- `set_quantizers`: (list after the loop, number of completed iterations, raised) -/
